@@ -1774,7 +1774,7 @@ fn audit() -> serde_json::Value {
     json!([
       {"class": 1, "topic": "entry paths / variants never driven",
        "covered": "both decoders (every per-type parser, find_crlf), encoders 1-6, both error encoders, put_line; encoder 5 = the bin server_persistent.rs's copy, its SOURCE TEXT compiled into the harness by build.rs; encoder 6 = SimulatedReadBuffer::encode_command through its public API; every function of the source tree that looks like a RESP codec is enumerated at run time and accounted for (C15:coverage:resp-codec-not-accounted); hook H1c detection restored in build.rs (its loss had left encoders 3 / 4 silently undriven: now C15:coverage:hook-h1c-absent)",
-       "open": "bin-only main.rs::encode_command and shadow_proxy.rs::parse_resp_command"},
+       "open": "— (session 4: encoder 7 = main.rs::encode_command and the shadow proxy's parse_resp_command are compiled from their source text and driven: CE / PN ops)"},
       {"class": 2, "topic": "input alphabet",
        "covered": "exhaustive strings over the grammar alphabet; all 256 values of the first byte (top level and as array element) before six tails; CR / LF patterns; non-UTF-8 lines; integers at the i64 / usize limits",
        "open": ""},
